@@ -65,7 +65,7 @@ end
 
 /-- what is known of entry `j` of a node list `L` that starts at number `n`: it hangs under an entry of `L` with a smaller number -/
 def Inner (L : List (Doc × Option Nat)) (n j : Nat) (sub : Doc) (q : Option Nat) : Prop :=
-  ∃ pi, q = some pi ∧ n ≤ pi ∧ pi < n + j ∧ ∃ pd pq, L[pi - n]? = some (pd, pq) ∧ sub ∈ pd.children
+  ∃ pi, q = some pi ∧ n ≤ pi ∧ pi < n + j ∧ ∃ pd pq, L[pi - n]? = some (pd, pq) ∧ sub ∈ pd.children ∧ j < (pi - n) + pd.size
 
 mutual
 theorem preorder_parent : ∀ (d : Doc) (p : Option Nat) (n j : Nat) (sub : Doc) (q : Option Nat),
@@ -82,9 +82,15 @@ theorem preorder_parent : ∀ (d : Doc) (p : Option Nat) (n j : Nat) (sub : Doc)
       simp only [List.getElem?_cons_succ] at h
       right
       refine ⟨Nat.succ_pos _, ?_⟩
-      rcases preorderList_parent cs (some n) (n + 1) j' sub q h with ⟨hq, hmem⟩ | ⟨pi, hq, h1, h2, pd, pq, hpd, hsub⟩
-      · exact ⟨n, hq, Nat.le_refl _, by omega, Doc.node k i a e x t cs, p, by simp, hmem⟩
-      · refine ⟨pi, hq, by omega, by omega, pd, pq, ?_, hsub⟩
+      have hj'len : j' < Doc.sizeList cs := by
+        have := (List.getElem?_eq_some_iff.mp h).1
+        rw [preorderList_length] at this
+        exact this
+      rcases preorderList_parent cs (some n) (n + 1) j' sub q h with ⟨hq, hmem⟩ | ⟨pi, hq, h1, h2, pd, pq, hpd, hsub, hb⟩
+      · refine ⟨n, hq, Nat.le_refl _, by omega, Doc.node k i a e x t cs, p, by simp, hmem, ?_⟩
+        unfold Doc.size
+        omega
+      · refine ⟨pi, hq, by omega, by omega, pd, pq, ?_, hsub, by omega⟩
         have : pi - n = (pi - (n + 1)) + 1 := by omega
         rw [this, List.getElem?_cons_succ]
         exact hpd
@@ -98,17 +104,17 @@ theorem preorderList_parent : ∀ (ds : List Doc) (p : Option Nat) (n j : Nat) (
     have hlen := preorder_length d p n
     by_cases hj : j < d.size
     · rw [List.getElem?_append_left (by omega)] at h
-      rcases preorder_parent d p n j sub q h with ⟨_, hs, hq⟩ | ⟨_, pi, hq, h1, h2, pd, pq, hpd, hsub⟩
+      rcases preorder_parent d p n j sub q h with ⟨_, hs, hq⟩ | ⟨_, pi, hq, h1, h2, pd, pq, hpd, hsub, hb⟩
       · exact Or.inl ⟨hq, by rw [hs]; exact List.mem_cons_self⟩
       · right
-        refine ⟨pi, hq, h1, h2, pd, pq, ?_, hsub⟩
+        refine ⟨pi, hq, h1, h2, pd, pq, ?_, hsub, hb⟩
         rw [List.getElem?_append_left (by omega)]
         exact hpd
     · rw [List.getElem?_append_right (by omega), hlen] at h
-      rcases preorderList_parent ds p (n + d.size) (j - d.size) sub q h with ⟨hq, hmem⟩ | ⟨pi, hq, h1, h2, pd, pq, hpd, hsub⟩
+      rcases preorderList_parent ds p (n + d.size) (j - d.size) sub q h with ⟨hq, hmem⟩ | ⟨pi, hq, h1, h2, pd, pq, hpd, hsub, hb⟩
       · exact Or.inl ⟨hq, List.mem_cons_of_mem _ hmem⟩
       · right
-        refine ⟨pi, hq, by omega, by omega, pd, pq, ?_, hsub⟩
+        refine ⟨pi, hq, by omega, by omega, pd, pq, ?_, hsub, by omega⟩
         rw [List.getElem?_append_right (by omega), hlen]
         have : pi - n - d.size = pi - (n + d.size) := by omega
         rw [this]
@@ -142,15 +148,15 @@ theorem nodes_facts (d : Doc) (h : WFDoc d = true) (j : Nat) (sub : Doc) (q : Op
     (hj : (d.preorder none 0)[j]? = some (sub, q)) :
     (j = 0 ∧ sub = d ∧ q = none) ∨
     (0 < j ∧ sub.kind ≠ .scxml ∧ ∃ pi pd pq, q = some pi ∧ pi < j ∧ (d.preorder none 0)[pi]? = some (pd, pq) ∧
-      sub ∈ pd.children ∧ parentKind pd.kind = true ∧ WFDoc pd = true) := by
-  rcases preorder_parent d none 0 j sub q hj with h0 | ⟨hpos, pi, hq, _, h2, pd, pq, hpd, hsub⟩
+      sub ∈ pd.children ∧ parentKind pd.kind = true ∧ WFDoc pd = true ∧ j < pi + pd.size) := by
+  rcases preorder_parent d none 0 j sub q hj with h0 | ⟨hpos, pi, hq, _, h2, pd, pq, hpd, hsub, hb⟩
   · exact Or.inl h0
   · right
     have hpd' : (d.preorder none 0)[pi]? = some (pd, pq) := by simpa using hpd
     have hwf : WFDoc pd = true := preorder_wf d none 0 h (pd, pq) (List.mem_of_getElem? hpd')
     have hc := wf_children pd hwf
     have hne : pd.children ≠ [] := by intro he; rw [he] at hsub; cases hsub
-    exact ⟨hpos, (kidsOk_mem _ sub hc.2 hsub).1, pi, pd, pq, hq, by omega, hpd', hsub, hc.1 hne, hwf⟩
+    exact ⟨hpos, (kidsOk_mem _ sub hc.2 hsub).1, pi, pd, pq, hq, by omega, hpd', hsub, hc.1 hne, hwf, by omega⟩
 
 end UscxmlVerif.Proofs.Flatten
 
@@ -239,7 +245,7 @@ theorem coherent_flatten' (d0 : Doc) (late : Bool) (hwf : WFDoc d0.resort = true
     · right
       obtain ⟨nd, q, hg⟩ := hsome s hs
       obtain ⟨hk, hp, _, _⟩ := st_flatten d0 late s nd q hg
-      rcases hfacts s nd q hg with ⟨h, _⟩ | ⟨_, hne, pi, pd, pq, hq, hlt, hpd, _, hpk, _⟩
+      rcases hfacts s nd q hg with ⟨h, _⟩ | ⟨_, hne, pi, pd, pq, hq, hlt, hpd, _, hpk, _, _⟩
       · exact absurd h hs0
       · refine ⟨by rw [hk]; exact hne, ?_⟩
         rw [hp, hq]
@@ -272,7 +278,7 @@ theorem coherent_flatten' (d0 : Doc) (late : Bool) (hwf : WFDoc d0.resort = true
         apply List.eq_nil_iff_forall_not_mem.mpr
         intro j hj
         obtain ⟨_, sub, hsub⟩ := mem_childrenOf hj
-        rcases hfacts j sub (some s) hsub with ⟨_, _, hq⟩ | ⟨_, _, pi, pd, pq, hq, _, hpd, _, hpk, _⟩
+        rcases hfacts j sub (some s) hsub with ⟨_, _, hq⟩ | ⟨_, _, pi, pd, pq, hq, _, hpd, _, hpk, _, _⟩
         · cases hq
         · simp only [Option.some.injEq] at hq
           subst hq
